@@ -98,6 +98,9 @@ def run(ck, models, tier, ws):
             if o["when"]:
                 first_ev = v.trace[0] if v.trace else None
                 okw = bool(conds) and first_ev is conds[0] and len(conds) == 1
+                if okw and d["shape"]["nargs"] == 2:
+                    c0, c1 = conds[0].args
+                    okw = isinstance(c1, Int) and c1.e.op == "leaf" and isinstance(c0, (Opaque, Ref))      # evaluated on the call's own arguments
                 ck.ob("R8.3", "%s/when-guards-the-call" % key, tm.target, okw,
                       "first event of the fake is %s (expected the `when` condition, evaluated once)" % (short(first_ev.name) if first_ev else None))
                 if cond_false:
